@@ -95,6 +95,7 @@ func c05MemConns(s *c05Scn) *c05Conns {
 	}
 	left, client := c05MemPair(s.MemLimit, src, dst)
 	right, upstream := c05MemPair(s.MemLimit, &net.TCPAddr{IP: net.IPv4(192, 0, 2, 1), Port: 50001}, dst)
+	left.eofWithData, right.eofWithData = s.EOFWithData[0], s.EOFWithData[1]
 	return &c05Conns{client: client, left: left, right: right, upstream: upstream}
 }
 
@@ -103,7 +104,7 @@ func c05Opt(mem bool) c05GenOpt {
 }
 
 func c05NTKey(s *c05Scn) string {
-	return fmt.Sprintf("%v|%v|%s|%s|%s|%s|%d|%d|%v|%v", s.Mem, s.HandleConn, s.Stack, s.Open, s.Close, s.FirstKind, len(s.C2U), len(s.U2C), s.CSteps, s.SSteps)
+	return fmt.Sprintf("%v%v|%v|%v|%s|%s|%s|%s|%d|%d|%v|%v", s.EOFWithData, s.FinAtomic, s.Mem, s.HandleConn, s.Stack, s.Open, s.Close, s.FirstKind, len(s.C2U), len(s.U2C), s.CSteps, s.SSteps)
 }
 
 // c05RunTCP executes a scenario over loopback sockets.
@@ -225,8 +226,10 @@ func TestC05_WrapperRead(t *testing.T) {
 		var fail string
 		var got []byte
 		var d *c05Dae
+		eofHits := int32(0)
 		synctest.Test(t, func(*testing.T) {
 			cn := c05MemConns(s)
+			defer func() { eofHits = cn.left.(*c05MemConn).eofDataHits.Load() }()
 			d = &c05Dae{relayStarted: make(chan struct{})}
 			done := make(chan struct{})
 			go func() { // the client: its steps without the waits, then FIN
@@ -235,6 +238,10 @@ func TestC05_WrapperRead(t *testing.T) {
 				for _, st := range s.CSteps {
 					switch st.Op {
 					case c05OpWrite:
+						if off+st.N == len(s.C2U) && s.FinAtomic[0] {
+							_, _ = cn.client.(*c05MemConn).WriteFin(s.C2U[off:])
+							return
+						}
 						if _, err := cn.client.Write(s.C2U[off : off+st.N]); err != nil {
 							return
 						}
@@ -283,6 +290,10 @@ func TestC05_WrapperRead(t *testing.T) {
 		if d.stackKind != "conn" {
 			key = fmt.Sprintf("%s|%s|%v|%v|%d", d.stackKind, s.FirstKind, sizes, s.CSteps, len(s.C2U))
 		}
-		vkCase(unit, key, func() any { m := s.Summary(); m["readSizes"] = sizes; return m }, "left_"+d.stackKind, "first_"+s.FirstKind)
+		cl := []string{"left_" + d.stackKind, "first_" + s.FirstKind}
+		if eofHits > 0 {
+			cl = append(cl, "eof_with_data")
+		}
+		vkCase(unit, key, func() any { m := s.Summary(); m["readSizes"] = sizes; return m }, cl...)
 	})
 }
